@@ -135,3 +135,14 @@ Definition rgba_ok (c : rgba) : bool :=
   let '(r, g, b, a) := c in (r <? 256) && (g <? 256) && (b <? 256) && (a <? 256).
 Definition orgba_ok (c : option rgba) : bool := match c with Some x => rgba_ok x | None => true end.
 Definition face_ok (f : face) : bool := orgba_ok (f_fg f) && orgba_ok (f_bg f) && attrs_ok (f_attrs f).
+
+(* ------------------------------------------------------------- serde forms *)
+
+(* Serialize for Face / KeyChord: collect_str(self); Deserialize: a string, then FromStr *)
+Definition face_ser (f : face) : json := JStr (face_print f).
+Definition face_de_json (oracle : str -> option rgba) (j : json) : outcome face :=
+  match j with JStr s => face_parse oracle s | _ => Err 1 end.
+
+Definition chord_ser (ks : list key) : json := JStr (print_chord ks).
+Definition chord_de_json (lower : str -> str) (j : json) : outcome (list key) :=
+  match j with JStr s => parse_chord lower s | _ => Err 1 end.
